@@ -73,3 +73,41 @@ func VerifHarness_C20_PrimariesInverse() {
 }
 
 var verifC20Orient = 1
+
+// VerifHarness_C20_Luminance: the luminance components. For concrete primaries (the four
+// built-in sets, chosen by the path) and a white point of the set's chromaticity with a
+// FREE luminance YY in [0.25, 4], T*(1,1,1) is the white's XYZ (which scales with YY);
+// and the luminances given to the three primaries (free in [0.25, 4]) do not matter.
+func VerifHarness_C20_Luminance() {
+	sets := [][4][2]float32{
+		{{0.64, 0.33}, {0.3, 0.6}, {0.15, 0.06}, {0.3127, 0.329}},                // sRGB / D65
+		{{0.64, 0.33}, {0.21, 0.71}, {0.15, 0.06}, {0.3127, 0.329}},              // Adobe RGB / D65
+		{{0.7347, 0.2653}, {0.1596, 0.8404}, {0.0366, 0.0001}, {0.3457, 0.3585}}, // ProPhoto / D50
+		{{0.68, 0.32}, {0.265, 0.69}, {0.15, 0.06}, {0.3127, 0.329}},             // Display P3 / D65
+	}
+	s := sets[verifChoice(len(sets))]
+	lum := func() float32 {
+		v := verifF32()
+		verifAssume(verifAnd(v >= 0.25, v <= 4))
+		return v
+	}
+	r := ciexyy.Color{X: s[0][0], Y: s[0][1], YY: lum()}
+	g := ciexyy.Color{X: s[1][0], Y: s[1][1], YY: lum()}
+	b := ciexyy.Color{X: s[2][0], Y: s[2][1], YY: lum()}
+	w := ciexyy.Color{X: s[3][0], Y: s[3][1], YY: lum()}
+	t := TransformToXYZForXYYPrimaries(r, g, b, w)
+	verifReach("luminance-built")
+	white := ColorFromXYY(w).ToV()
+	tw := t.MulV(matrix.Vector3{1, 1, 1})
+	verifAssert(verifAnd(tw[0] == white[0], verifAnd(tw[1] == white[1], tw[2] == white[2])), "T*(1,1,1) is not the white point's XYZ when the white's luminance is not 1")
+	r.YY, g.YY, b.YY = 1, 1, 1
+	t1 := TransformToXYZForXYYPrimaries(r, g, b, w)
+	for c := 0; c < 3; c++ {
+		for k := 0; k < 3; k++ {
+			// (tolerance, not equality: t1 is computed from constants, which the executor folds
+			// with float32 rounding, while the symbolic side is exact)
+			d := t[c][k] - t1[c][k]
+			verifAssert(verifAnd(d <= 1e-6, d >= -1e-6), "the matrix depends on the luminance given to a primary")
+		}
+	}
+}
